@@ -1,14 +1,252 @@
 import NutilsVerif.Model.C20
 import NutilsVerif.Generated.C20
+import NutilsVerif.Proofs.C20Dim
+import NutilsVerif.Proofs.C20Name
+import NutilsVerif.Proofs.C20Kinds
+import NutilsVerif.Proofs.C20Parse
+import NutilsVerif.Proofs.C20Units
 /-!
-# C20 — property theorems
+# C20 — physical dimensions are tracked soundly: property theorems
+
+All statements are about the executable model `Model/C20.lean` of `nutils/SI.py`; the harness ties the model to
+the real code.  Clauses of the property:
+
+* (A) `*`, `/`, `**` on dimensions follow exact arithmetic on the exponents and form an abelian group
+      → `dim_canonical`, `dim_ext`, `dim_group`
+* (B) the class cache keyed by the name is sound, pickling by name round-trips
+      → `split_name_roundtrip`, `name_injective`
+* (C) every dispatched function is routed to the handler its homogeneity law requires; that handler makes the
+      result independent of the reference units; the numerical value is the plain computation
+      → `dispatch_table_sound` (X), `result_dimension`, `value_commutes`, `units_invariance`, `dispatch_units_invariant`
+* (D) adding / comparing / stacking / assigning / interpolating / locating with different dimensions is rejected
+      → `mixed_rejected`
+* (E) unit strings: no ambiguity between prefixed and unprefixed names; a leading number is a factor;
+      `parse (format q unit) = q` on the token level
+      → `unit_names_unambiguous` (X), `parse_number_prefix`, `parse_format_roundtrip_partial`
 -/
 namespace NutilsVerif.C20
+
+/-! ## (A) the dimension group -/
+
+/-- `from_powers`, `*`, `/`, `**` always return a canonical exponent vector (sorted, no zero exponent), whatever
+the operands are: the value of `Dimension.__powers` is a function of the mathematical exponent vector. -/
+theorem dim_canonical (l a b : Pows) (q : Rat) :
+    Canon (fromPowers l) ∧ Canon (mul a b) ∧ Canon (div a b) ∧ Canon (pow a q) ∧ Canon one :=
+  ⟨canon_fromPowers l, canon_mul a b, canon_div a b, canon_pow a q, canon_nil⟩
+
+/-- canonical exponent vectors are equal iff they assign the same exponent to every base symbol; and the
+operations compute exactly `+`, `-`, `* q` on these exponents. -/
+theorem dim_ext {a b : Pows} (ha : Canon a) (hb : Canon b) :
+    (a = b ↔ ∀ k, get a k = get b k) ∧
+    (∀ k, get (mul a b) k = get a k + get b k) ∧ (∀ k, get (div a b) k = get a k - get b k) ∧
+    (∀ q k, get (pow a q) k = get a k * q) :=
+  ⟨⟨fun h _ => h ▸ rfl, ext ha hb⟩, get_mul ha.1 hb.1, get_div ha.1 hb.1, fun q k => get_pow ha.1 q k⟩
+
+theorem dim_mul_comm {a b : Pows} (ha : Canon a) (hb : Canon b) : mul a b = mul b a := by
+  apply ext (canon_mul _ _) (canon_mul _ _); intro k
+  rw [get_mul ha.1 hb.1, get_mul hb.1 ha.1]; grind
+
+theorem dim_mul_assoc {a b c : Pows} (ha : Canon a) (hb : Canon b) (hc : Canon c) : mul (mul a b) c = mul a (mul b c) := by
+  apply ext (canon_mul _ _) (canon_mul _ _); intro k
+  rw [get_mul (canon_mul a b).1 hc.1, get_mul ha.1 hb.1, get_mul ha.1 (canon_mul b c).1, get_mul hb.1 hc.1]; grind
+
+theorem dim_mul_one {a : Pows} (ha : Canon a) : mul a one = a ∧ mul one a = a ∧ div a one = a := by
+  refine ⟨?_, ?_, ?_⟩
+  · apply ext (canon_mul _ _) ha; intro k; show get (mul a []) k = _; rw [get_mul ha.1 sorted_nil, get_nil]; grind
+  · apply ext (canon_mul _ _) ha; intro k; show get (mul [] a) k = _; rw [get_mul sorted_nil ha.1, get_nil]; grind
+  · apply ext (canon_div _ _) ha; intro k; show get (div a []) k = _; rw [get_div ha.1 sorted_nil, get_nil]; grind
+
+theorem dim_div_self {a : Pows} (ha : Canon a) : div a a = one := by
+  apply ext (canon_div _ _) canon_nil; intro k
+  rw [get_div ha.1 ha.1]; show _ = get [] k; rw [get_nil]; grind
+
+theorem dim_div_eq_mul_inv {a b : Pows} (ha : Canon a) (hb : Canon b) : div a b = mul a (pow b (-1)) := by
+  apply ext (canon_div _ _) (canon_mul _ _); intro k
+  rw [get_div ha.1 hb.1, get_mul ha.1 (canon_pow b _).1, get_pow hb.1]; grind
+
+theorem dim_pow_add {a : Pows} (ha : Canon a) (p q : Rat) : pow a (p + q) = mul (pow a p) (pow a q) := by
+  apply ext (canon_pow _ _) (canon_mul _ _); intro k
+  rw [get_pow ha.1, get_mul (canon_pow a p).1 (canon_pow a q).1, get_pow ha.1, get_pow ha.1]; grind
+
+theorem dim_pow_mul {a : Pows} (ha : Canon a) (p q : Rat) : pow (pow a p) q = pow a (p * q) := by
+  apply ext (canon_pow _ _) (canon_pow _ _); intro k
+  rw [get_pow (canon_pow a p).1, get_pow ha.1, get_pow ha.1]; grind
+
+theorem dim_mul_pow {a b : Pows} (ha : Canon a) (hb : Canon b) (q : Rat) : pow (mul a b) q = mul (pow a q) (pow b q) := by
+  apply ext (canon_pow _ _) (canon_mul _ _); intro k
+  rw [get_pow (canon_mul a b).1, get_mul ha.1 hb.1, get_mul (canon_pow a q).1 (canon_pow b q).1, get_pow ha.1, get_pow hb.1]; grind
+
+theorem dim_pow_one_zero {a : Pows} (ha : Canon a) : pow a 1 = a ∧ pow a 0 = one := by
+  constructor
+  · apply ext (canon_pow _ _) ha; intro k; rw [get_pow ha.1]; grind
+  · apply ext (canon_pow _ _) canon_nil; intro k; rw [get_pow ha.1]; show _ = get [] k; rw [get_nil]; grind
+
+/-- Clause "multiplying, dividing, taking powers and roots yield exactly the dimension dictated by the operands'
+exponents": for all canonical exponent vectors and all rational exponents, `*` is an abelian group operation with
+unit `one` and inverse `** -1`, `/` is multiplication with the inverse, and `**` is the ℚ-module action. -/
+theorem dim_group {a b c : Pows} (ha : Canon a) (hb : Canon b) (hc : Canon c) (p q : Rat) :
+    mul (mul a b) c = mul a (mul b c) ∧ mul a b = mul b a ∧ mul a one = a ∧ mul a (pow a (-1)) = one ∧
+    div a b = mul a (pow b (-1)) ∧
+    pow a (p + q) = mul (pow a p) (pow a q) ∧ pow (pow a p) q = pow a (p * q) ∧
+    pow (mul a b) q = mul (pow a q) (pow b q) ∧ pow a 1 = a ∧ pow a 0 = one :=
+  ⟨dim_mul_assoc ha hb hc, dim_mul_comm ha hb, (dim_mul_one ha).1,
+   by rw [← dim_div_eq_mul_inv ha ha]; exact dim_div_self ha,
+   dim_div_eq_mul_inv ha hb, dim_pow_add ha p q, dim_pow_mul ha p q, dim_mul_pow ha hb q,
+   (dim_pow_one_zero ha).1, (dim_pow_one_zero ha).2⟩
+
+-- non-vacuity: force = M·L/T² is canonical, and √(force) · √(force) = force
+example : Canon (fromPowers [("M", 1), ("L", 1), ("T", -2)]) := canon_fromPowers _
+example : mul (pow [("L", 1), ("M", 1), ("T", -2)] (1/2)) (pow [("L", 1), ("M", 1), ("T", -2)] (1/2)) = [("L", 1), ("M", 1), ("T", -2)] := by
+  decide +kernel
+
+/-! ## (B) names -/
+
+/-- Clause "the class cache keyed by the canonical name is sound / pickling round-trips": for every canonical
+exponent vector over base symbols that `Dimension.create` admits, taking the class name apart with
+`_split_factors` (as `Dimension.__getattr__` does) gives the exponent vector back — for all bases, all rational
+exponents, any number of factors. -/
+theorem split_name_roundtrip {d : Pows} (hd : Canon d) (hv : ∀ e ∈ d, ValidBase e.1) : dimOfName (name d) = .ok d :=
+  dimOfName_name hd hv
+
+/-- the cache key is injective on canonical exponent vectors -/
+theorem name_injective {a b : Pows} (ha : Canon a) (hb : Canon b) (hva : ∀ e ∈ a, ValidBase e.1) (hvb : ∀ e ∈ b, ValidBase e.1)
+    (h : name a = name b) : a = b := by
+  have h1 := split_name_roundtrip ha hva
+  have h2 := split_name_roundtrip hb hvb
+  rw [h] at h1
+  rw [h1] at h2
+  exact Except.ok.inj h2
+
+-- non-vacuity: the name of force**(3/2) and its way back
+example : String.ofList (name [("L", 3/2), ("M", 3/2), ("T", -3)]) = "M3_2*L3_2/T3" := by decide +kernel
+example : ValidBase "L" ∧ ValidBase "θ" ∧ ValidBase "a1b" := by
+  refine ⟨⟨by decide, by decide, by decide, ?_⟩, ⟨by decide, by decide, by decide, ?_⟩, ⟨by decide, by decide, by decide, ?_⟩⟩ <;>
+  · intro c h; simp at h; subst h; decide
+-- without the validity hypothesis the statement is false (`x1`² and `x`¹² have the same name); `create` rejects `x1`
+example : name [("x1", 2)] = name [("x", 12)] ∧ createCheck "x1".toList = .invalid := by decide +kernel
+
+/-! ## (C) the dispatch handlers -/
 
 /-- (X) Every entry of the dispatch table extracted from `SI.py` whose function has a law in the trusted
 classification `lawOf` is registered with the handler that implements this law. -/
 theorem dispatch_table_sound :
     ∀ e ∈ Generated.dispatchTable, ∀ l, lawOf e.fname = some l → handlerKind e.handler e.rank = some (requiredKind l) := by
   decide
+
+/-- Clause "yield exactly the dimension dictated by the operands' exponents": a successful single-result handler
+returns the dimension given by its rule `ruleDim` (product, quotient, power, half power, …) for all operands. -/
+theorem result_dimension {V} (k : Kind) (op : List (Arg V) → V) (tuple : V → List V) (expo : Arg V → Option Rat)
+    (args : List (Arg V)) (c : Call V) (h : apply k op tuple expo args = .ok c) (hk : k ≠ .evaluate) :
+    ∃ d, ruleDim k expo args = some d ∧ c.result.map Arg.dim = [d] :=
+  result_dim_aux k op tuple expo args c h hk
+
+/-- Clause "with a numerical value equal to the same computation on plain numbers in reference units": for every
+handler and all arguments, a successful call applies the wrapped function to the payloads of the arguments (same
+positions, nothing else) and returns its value(s) unchanged. -/
+theorem value_commutes {V} (k : Kind) (op : List (Arg V) → V) (tuple : V → List V) (expo : Arg V → Option Rat)
+    (args : List (Arg V)) (c : Call V) (h : apply k op tuple expo args = .ok c) :
+    c.passed.map Arg.val = args.map Arg.val ∧
+      c.result.map Arg.val = (if k = .evaluate then ((args.zip (tuple (op c.passed))).map (·.2)) else [op c.passed]) :=
+  value_commutes_aux k op tuple expo args c h
+
+/-- The meaning of the classification: if the wrapped function obeys homogeneity law `l`, then the handler
+`requiredKind l` commutes with every change of reference units `sc` — rescaling all operands and calling gives the
+rescaled result (same dimension, rescaled value), and the same error otherwise. -/
+theorem units_invariance {S V} (sc : Scaling S V) (l : Law) (n : Nat) (hn : lawArity l = some n)
+    (op : List (Arg V) → V) (tuple : V → List V) (expo : Arg V → Option Rat) (hlaw : LawHolds sc expo l op)
+    (args : List (Arg V)) (hc : ∀ a ∈ args, Canon a.dim) (hrest : ∀ a ∈ args.drop n, a.isQ = false) :
+    (apply (requiredKind l) op tuple expo (args.map sc.rescale)).map (·.result) =
+      (apply (requiredKind l) op tuple expo args).map (fun c => c.result.map sc.rescale) :=
+  units_invariance_aux sc l n hn op tuple expo hlaw args hc hrest
+
+/-- (X) + the above: every extracted dispatch entry whose function obeys its classified law is handled in a way that
+does not depend on the choice of reference units. -/
+theorem dispatch_units_invariant {S V} (sc : Scaling S V) :
+    ∀ e ∈ Generated.dispatchTable, ∀ l n, lawOf e.fname = some l → lawArity l = some n →
+      ∀ k, handlerKind e.handler e.rank = some k →
+      ∀ (op : List (Arg V) → V) (tuple : V → List V) (expo : Arg V → Option Rat), LawHolds sc expo l op →
+      ∀ args : List (Arg V), (∀ a ∈ args, Canon a.dim) → (∀ a ∈ args.drop n, a.isQ = false) →
+        (apply k op tuple expo (args.map sc.rescale)).map (·.result) =
+          (apply k op tuple expo args).map (fun c => c.result.map sc.rescale) := by
+  intro e he l n hl hn k hk op tuple expo hlaw args hc hrest
+  have := dispatch_table_sound e he l hl
+  rw [hk] at this
+  cases this
+  exact units_invariance sc l n hn op tuple expo hlaw args hc hrest
+
+-- non-vacuity: a change of units exists (all scale factors one) and multiplication of rationals is bilinear for it
+def trivialScaling : Scaling Rat Rat :=
+  { one := 1, mul := (· * ·), div := (· / ·), spow := fun _ _ => 1, smul := (· * ·), σ := fun _ => 1,
+    one_smul := Rat.one_mul, σ_one := rfl, σ_mul := by intros; simp [Rat.mul_one], σ_div := by intros; decide +kernel, σ_pow := by intros; rfl }
+example : LawHolds trivialScaling (fun _ => none) .bilinear (fun as => match as with | a :: b :: _ => a.val * b.val | _ => 0) := by
+  intro s t x y rest; simp only [trivialScaling, Arg.val]; grind
+
+/-! ## (D) mixed dimensions -/
+
+/-- Clause "adding, comparing, stacking or assigning quantities of different dimension is always rejected" (and
+interpolating over a different abscissa, locating with different coordinates/tolerances): whenever a checked operand
+is a Quantity and the dimensions differ the handler raises `DimensionError`; and no handler of these kinds ever
+succeeds on operands of different dimension. -/
+theorem mixed_rejected {V} (op : List (Arg V) → V) (tuple : V → List V) (expo : Arg V → Option Rat) :
+    (∀ k, (k = .addLike ∨ k = .binaryOp) → ∀ a0 a1 rest, unpackOk [a0, a1] = true → a0.dim ≠ a1.dim →
+        apply k op tuple expo (a0 :: a1 :: rest) = .error .dimension) ∧
+    (∀ a0 i a2 rest, unpackOk [a0, a2] = true → a0.dim ≠ a2.dim → apply .setitem op tuple expo (a0 :: i :: a2 :: rest) = .error .dimension) ∧
+    (∀ x xp fp rest, unpackOk [x, xp, fp] = true → x.dim ≠ xp.dim → apply .interp op tuple expo (x :: xp :: fp :: rest) = .error .dimension) ∧
+    (∀ (sop : List (Arg V) → List (Arg V) → V) a0 as rest, unpackOk (a0 :: as) = true → (∃ a ∈ as, a.dim ≠ a0.dim) →
+        applyStack sop (a0 :: as) rest = .error .dimension) ∧
+    (∀ k args c, apply k op tuple expo args = .ok c →
+        (k = .addLike ∨ k = .binaryOp → ∀ a0 a1 rest, args = a0 :: a1 :: rest → a0.dim = a1.dim) ∧
+        (k = .setitem → ∀ a0 i a2 rest, args = a0 :: i :: a2 :: rest → a0.dim = a2.dim) ∧
+        (k = .interp → ∀ x xp fp rest, args = x :: xp :: fp :: rest → x.dim = xp.dim)) ∧
+    (∀ geom coords tol maxdist, applyLocate geom coords tol maxdist = .ok () →
+        geom.1 = coords.1 ∧ (∀ t, tol = some t → t.1 = geom.1) ∧ (∀ m, maxdist = some m → m.1 = geom.1)) :=
+  ⟨fun k hk a0 a1 rest hq hd => mixed_addLike k hk op tuple expo a0 a1 rest hq hd,
+   fun a0 i a2 rest hq hd => mixed_setitem op tuple expo a0 i a2 rest hq hd,
+   fun x xp fp rest hq hd => mixed_interp op tuple expo x xp fp rest hq hd,
+   fun sop a0 as rest hq hd => mixed_stack sop a0 as rest hq hd,
+   fun k args c h => mixed_never_ok k op tuple expo args c h,
+   fun geom coords tol maxdist h => mixed_locate geom coords tol maxdist h⟩
+
+-- non-vacuity: metre + second is rejected, metre + metre is not
+example : apply (V := Nat) .addLike (fun _ => 0) (fun _ => []) (fun _ => none) [.q [("L", 1)] 1, .q [("T", 1)] 2] = .error .dimension := by decide +kernel
+example : ∃ c, apply (V := Nat) .addLike (fun _ => 0) (fun _ => []) (fun _ => none) [.q [("L", 1)] 1, .q [("L", 1)] 2] = .ok c := ⟨_, rfl⟩
+
+/-! ## (E) unit strings -/
+
+/-- (X) For the unit definitions extracted from `SI.py`: no two definitions share a name, and the names that two
+different definitions put into the table (the name itself and its 19 prefixed forms; `units['in']` has none) are
+disjoint — so `Units.__setattr__` never reports a collision and every string names at most one unit (`min` is the
+minute, not milli-inch; `Pa` is the pascal, not peta-year; …). -/
+theorem unit_names_unambiguous :
+    (Generated.unitDefs.map UDef.name).Nodup ∧
+    ∀ a ∈ Generated.unitDefs, ∀ b ∈ Generated.unitDefs, a.name ≠ b.name → ∀ n ∈ a.names, n ∉ b.names :=
+  ⟨by decide +kernel, names_disjoint Generated.unitDefs (by decide +kernel)⟩
+
+/-- A numeral written in front of a unit string multiplies its value and does not change the dimension; errors are
+unchanged (for every unit table, numeral and unit string that does not itself begin with a sign/digit/point). -/
+theorem parse_number_prefix' (U : UTable) (num u : List Char) (x : Rat) (hnum : ∀ c ∈ num, isNumChar c = true)
+    (hne : num ≠ []) (hx : readNum num = some x) (hu : ∀ c, u.head? = some c → isNumChar c = false) :
+    parse U (num ++ u) = (parse U u).map (scaleU x) :=
+  parse_number_prefix U num u x hnum hne hx hu
+
+/-- Clause "parsing a unit string then formatting with the same unit round-trips the value", on the token level:
+if `format(q, spec)` succeeds and prints the value `x` with unit text `unit`, then any numeral that reads back as `x`
+followed by `unit` parses to exactly `q` (dimension and value).  *Partial*: the float formatting itself (`'.3f'`,
+rounding to the printed precision) is not modelled — the full statement would be about
+`parse (format q spec)` with Python's float formatter, which loses digits; and the unit must not begin with a
+sign (for `format(q, '.1-2m')` the printed text `…-2m` does not parse back, also in the real code). -/
+theorem parse_format_roundtrip_partial (U : UTable) (q : UVal) (spec pre unit txt : List Char) (x : Rat)
+    (hf : formatParts U q spec = .ok (pre, x, unit))
+    (htxt : ∀ c ∈ txt, isNumChar c = true) (hne : txt ≠ []) (hread : readNum txt = some x)
+    (hu : ∀ c, unit.head? = some c → isNumChar c = false) :
+    parse U (txt ++ unit) = .ok q :=
+  format_parse_roundtrip U q spec pre unit txt x hf htxt hne hread hu
+
+-- non-vacuity: 9 km/h formatted as '.1m/s' prints 2.5 and '2.5m/s' parses back
+def U0 : UTable := [("m".toList, ⟨[("L", 1)], 1⟩), ("s".toList, ⟨[("T", 1)], 1⟩)]
+example : formatParts U0 ⟨[("L", 1), ("T", -1)], 5/2⟩ ".1m/s".toList = .ok (".1".toList, 5/2, "m/s".toList) := by decide +kernel
+example : parse U0 "2.5m/s".toList = .ok ⟨[("L", 1), ("T", -1)], 5/2⟩ := by decide +kernel
+-- the sign restriction is necessary: '-2m' is a legal unit for formatting but the printed text does not parse back
+example : (formatParts U0 ⟨[("L", 1)], 3⟩ ".1-2m".toList).toBool = true ∧ (parse U0 "-1.5-2m".toList).toBool = false := by decide +kernel
 
 end NutilsVerif.C20
